@@ -10,9 +10,17 @@ Inputs: every key-presence pattern over a 3-key universe per operand (8 patterns
 packed into one execution through the extra identifier ``C_id`` (an identifier of every operand, hence a join key in
 every configuration).  The measure of operand i holds 100*i + (ordinal of the key), so a value taken from the
 wrong operand, a spurious match or a missing null is visible.  ``cross_join`` does not match on identifiers, so it
-cannot be packed: it is run unpacked over a 2-key universe (4^n combinations, including empty operands), all bodies of
-one head as statements of one script.  Empty operands (not expressible in a packed run) are covered for the other
+cannot be packed: it is run unpacked over a 2-key universe (2 operands: all 4^2 presence combinations; 3 operands: 0, 1
+or 2 datapoints per operand = 27 combinations, bodies of length <= 1 plus the mandatory rename of equally named
+identifiers), all bodies of one head as statements of one script.  Empty operands (not expressible in a packed run) are covered for the other
 joins by a small unpacked sweep.
+
+Execution: all bodies of one head are submitted as the statements of one script (chunks of 40 statements) on the
+packed data - one run() costs ~45 ms whatever the number of statements - and every statement is judged on its own; a
+statement that differs is re-executed alone on its smallest failing C_id slice, and that single statement on that
+slice is the replay (if it does not differ alone, the combined execution is the replay: it is itself a member of the
+property's domain).  A failure of a body on cases on which the bare join of the same head already fails is the same
+defect and gets the same finding key.
 
 Oracle: the reference evaluator computes the relational join with nested loops, applies the clauses, removes the
 alias prefixes and checks identifier uniqueness; the engine's datapoints are compared as a set (refbase.compare).
@@ -240,6 +248,8 @@ class Head:
         return out
 
     def cases(self):
+        if self.cross and self.n == 3:
+            return list(itertools.product((0, 1, 3), repeat=3))      # 0, 1 or 2 datapoints per operand
         return list(itertools.product(range(2 ** self.nkeys), repeat=self.n))
 
     def packed_data(self, seed):
@@ -313,14 +323,14 @@ class Head:
         out = [[]] + [[c] for c in RN[n:n + 1] + idren]
         for layer in layers:
             out += [[c] for c in layer if [c] not in out]
-        if self.tier == "thorough":
+        if self.tier == "thorough" and not (self.cross and n == 3):
             for a in range(4):
                 for b in range(a + 1, 4):
                     out += [[x, y] for x in layers[a] for y in layers[b]]
         else:
             # (quick) apply followed by one more clause: the only way to reach the components apply creates
             out += [[x, y] for x in MID if x[0] == "apply" for y in KD + RN]
-        if self.tier != "thorough" and idren:
+        if not (self.tier == "thorough" and not (self.cross and n == 3)) and idren:
             # cross_join of operands with equally named identifiers: the rename of the identifiers is mandatory, so a
             # one-clause body needs it as a second clause
             for a in range(3):
@@ -436,9 +446,9 @@ class Run:
         h = self.h
         return (h.kind, h.n, h.config, h.alias, h.clash, self.shapes[i])
 
-    def execute(self, dss, inputclass):
-        """-> {statement: call tuple} for the live statements"""
-        live = [i for i in range(len(self.bodies)) if i not in self.dead]
+    def execute(self, dss, inputclass, only=None):
+        """-> {statement: call tuple} for the live statements (restricted to ``only``)"""
+        live = [i for i in range(len(self.bodies)) if i not in self.dead and (only is None or i in only)]
         results = {}
         for chunk in harness.chunks(live, CHUNK):
             self._execute(chunk, dss, inputclass, results)
@@ -462,42 +472,45 @@ class Run:
         """the engine raised on a program the reference semantics evaluates"""
         h, rec = self.h, self.rec
         sem = refbase.semantic(self.stmts[i], dss)
-        static = sem[0] == "err"
-        if not static and out[1] == "raw":
+        in_semantic = sem[0] == "err"
+        static = in_semantic
+        if not in_semantic:
             # raised while executing: does it depend on the data at all?  (same error on empty operands -> it does not)
             empty = self.h.single_data(tuple(0 for _ in range(self.h.n)), 0, 0)
             o2 = refbase.run(self.stmts[i], empty)
             self.rec.count("engine_runs")
-            if o2[0] == "err" and o2[2] == out[2]:
+            if o2[0] == "err" and o2[2:4] == out[2:4]:
                 static, dss = True, empty
         if static:
             self.dead.add(i)
-        if out[1] == "raw":
-            rec.case(self.ckey(i) + ("raw-error",), "raw-error:" + out[2])
-            self.raw_count[i] = self.raw_count.get(i, 0) + 1
-            if self.raw_count[i] >= 2 and not static:
-                self.dead.add(i)            # the same raw error on two different inputs: not executed any more
-                rec.count("statements_dropped_after_two_raw_errors")
-            if i not in self.key:
-                # a two-clause body that fails like one of its clauses alone shows that clause's defect
-                for c in self.bodies[i] if len(self.bodies[i]) > 1 else ():
-                    j = self.bodies.index([c]) if [c] in self.bodies else None
-                    if j is not None and str(self.key.get(j, "")).endswith("raw-error:" + out[2]):
-                        self.key[i] = self.key[j]
-                        rec.count("raw_errors_attributed_to_a_single_clause")
-                        break
-            if i not in self.key:
-                self.key[i] = finding(h, self.shapes[i], "any-input" if static else inputclass, "raw-error:" + out[2], "n" if static else None)
-                rec.violation(self.key[i], "%s raises the raw error %s: %s%s" % (
-                    self.stmts[i], out[2], out[4][:200], " (whatever the data)" if static else ""),
-                    {"script": self.stmts[i], "result": self.names[i], "datasets": [ds_json(d) for d in dss]})
-        else:
-            # a VTL error on a program the manual allows: recorded and reported as a note (not a C04 violation
-            # unless the rejection is clearly wrong)
-            rec.case(self.ckey(i) + ("rejected",), "engine-rejects:%s" % out[3], nontrivial=False)
+        if out[1] == "vtl" and in_semantic:
+            # semantic analysis refuses a program the reference semantics evaluates: recorded and reported as a note
+            # (not a C04 violation unless the rejection is clearly wrong)
+            rec.case(self.ckey(i) + ("rejected",), "semantic-analysis-rejects:%s" % out[3], nontrivial=False)
             rec.count("engine_rejections")
             rec.add("rejected", ["%s/%s/%s -> %s" % (h.kind, h.config, self.shapes[i], out[3])])
-            rec.note("engine rejects %s with %s %s: %s" % (self.stmts[i], out[2], out[3], out[4][:160]))
+            rec.note("semantic analysis rejects %s with %s %s: %s" % (self.stmts[i], out[2], out[3], out[4][:160]))
+            return
+        # a raw exception, or a run-time error on a program semantic analysis accepted: run() does not return the datapoints
+        tag = ("raw-error:" + out[2]) if out[1] == "raw" else ("runtime-error:%s" % out[3])
+        rec.case(self.ckey(i) + (tag.split(":")[0],), tag)
+        self.raw_count[i] = self.raw_count.get(i, 0) + 1
+        if self.raw_count[i] >= 2 and not static:
+            self.dead.add(i)            # the same error on two different inputs: not executed any more
+            rec.count("statements_dropped_after_two_errors")
+        if i not in self.key:
+            # a two-clause body that fails like one of its clauses alone shows that clause's defect
+            for c in self.bodies[i] if len(self.bodies[i]) > 1 else ():
+                j = self.bodies.index([c]) if [c] in self.bodies else None
+                if j is not None and str(self.key.get(j, "")).endswith(tag):
+                    self.key[i] = self.key[j]
+                    rec.count("errors_attributed_to_a_single_clause")
+                    break
+        if i not in self.key:
+            self.key[i] = finding(h, self.shapes[i], "any-input" if static else inputclass, tag, "n" if static else None)
+            rec.violation(self.key[i], "%s raises %s %s: %s%s" % (
+                self.stmts[i], out[2], out[3] or "", out[4][:300], " (whatever the data)" if static else ""),
+                {"script": self.stmts[i], "result": self.names[i], "datasets": [ds_json(d) for d in dss]})
 
     def report(self, i, failing, case_id, sdss, inputclass, packed=None):
         """statement i differs on the cases ``failing``; ``sdss`` = the smallest failing input, run alone for the replay"""
@@ -518,8 +531,8 @@ class Run:
             d1, g1, e1 = info
             self.key[i] = finding(h, bodypart, inputclass, deviation(d1))
             rec.violation(self.key[i], describe(self.stmts[i], sdss, g1, e1, d1) + " [differs on %d cases of this head]" % len(failing), replay)
-        elif verdict == "engine-error" and info[1] == "raw":
-            self.key[i] = finding(h, bodypart, inputclass, "raw-error:" + info[2])
+        elif verdict == "engine-error" and (info[1] == "raw" or refbase.semantic(self.stmts[i], sdss)[0] == "ok"):
+            self.key[i] = finding(h, bodypart, inputclass, ("raw-error:" + info[2]) if info[1] == "raw" else "runtime-error:%s" % info[3])
             rec.violation(self.key[i], "%s raises %s on the single case %s" % (self.stmts[i], info[2:], case_id), replay)
         else:
             # only the multi-statement / packed execution differs; that execution is itself in the property's domain
@@ -548,9 +561,11 @@ def run_head(item, rec):
         singles = sorted(cases, key=lambda p: (sum(bin(x).count("1") for x in p), p))
         classes = ["rows=" + "x".join(str(bin(x).count("1")) for x in p) for p in singles]
     # unpacked executions: cross_join (cannot be packed) and, for the other joins, the empty operands packing cannot express
+    # (the empty-operand sweep of the packed joins uses the bodies of length <= 1)
+    only = None if h.cross else {i for i, b in enumerate(run.bodies) if len(b) <= 1 or i == 0}
     for pats, inputclass in zip(singles, classes):
         sdss = h.single_data(pats, seed, 0)
-        results = run.execute(sdss, inputclass)
+        results = run.execute(sdss, inputclass, only)
         whole = "\n".join(run.stmts[i] for i in sorted(results))
         for i in sorted(results):
             exp = R.evaluate([(run.names[i], h.join_ast(run.bodies[i]))], sdss)[run.names[i]]
@@ -621,7 +636,7 @@ def merge_raw_errors(rec):
     groups, rest = {}, []
     for v in rec.violations:
         parts = v["key"].split(":")
-        if len(parts) >= 6 and parts[4] == "raw-error" and parts[3] == "any-input":
+        if len(parts) >= 6 and parts[4] in ("raw-error", "runtime-error") and parts[3] == "any-input":
             ctx = parts[2].split("/")          # n-operands / family / body shape
             groups.setdefault((parts[5], ctx[-1].split("+")[0]), []).append(v)
         else:
@@ -638,7 +653,7 @@ def merge_raw_errors(rec):
         if others:
             keep["what"] += " [same error class with the same leading clause also under: %s]" % "; ".join(others)[:600]
         rest.append(keep)
-        rec.count("raw_error_reports_merged", len(vs) - 1)
+        rec.count("error_reports_merged", len(vs) - 1)
     rest.sort(key=lambda v: (v["key"], v["what"]))      # which of several equal-key reports is kept must not depend on timing
     rec.violations[:] = rest
 
@@ -654,8 +669,11 @@ class Check:
             "3 calc, 3 aggr, apply, keep/drop of every measure, renames; quick: bodies of length <= 1, thorough: every "
             "grammatical body of length <= 2); bodies the reference semantics calls ill-formed are not in the space. "
             "input = every key-presence pattern over a 3-key universe per operand (8^n combinations) packed through the "
-            "common identifier C_id, measures tagged 100*operand+key; cross_join unpacked over a 2-key universe (4^n); "
-            "plus unpacked runs with empty operands. one case = one (program, input combination); coverage key = "
+            "common identifier C_id, measures tagged 100*operand+key; cross_join unpacked over a 2-key universe (2 operands: 4^2 "
+            "presence combinations; 3 operands: 0/1/2 datapoints per operand = 27 combinations and bodies of length <= 1 "
+            "plus the mandatory identifier rename); "
+            "plus unpacked runs with empty operands. the bodies of one head are the statements of one script (40 per "
+            "script), each judged separately; a differing statement is re-run alone on its smallest failing slice. one case = one (program, input combination); coverage key = "
             "(kind, n, configuration, alias, clash, body shape, provenance class of the case = which combinations of "
             "operands meet in its virtual datapoints); non-trivial = the expected result of the case is non-empty. "
             "quick = 2 operands in all configurations (one identifier) + 3 operands with equal identifier sets.")
@@ -704,6 +722,7 @@ class Check:
             return False
         out = refbase.run(data["script"], dss)
         if out[0] != "ok":
-            return out[1] == "raw"
+            # a raw exception, or a run-time failure of a program that semantic analysis accepts
+            return out[1] == "raw" or refbase.semantic(data["script"], dss)[0] == "ok"
         got, names, ids = engine_rows(out, name)
         return bool(diff(got, names, ids, exp))
